@@ -2,7 +2,9 @@
 Model of the full-text index of discret (property C17):
   `src/database/node.rs:93-98`    `_node_fts`: content-less FTS5 trigram index keyed by the storage slot (rowid);
   `node.rs:322-409`  `Node::write(index, old_text, new_text)`: with indexing on, the words of the previous text
-                     are removed for the slot ('delete' command) and the words of the current text added;
+                     are removed for the slot ('delete' command) and the words of the current text added
+                     (switch `deleteUnguarded`: the 'delete' is issued whether or not the row is in the index, and
+                     only when `index` is on; repaired: issued exactly when the slot has a document in the index);
                      a new row takes the slot SQLite assigns (largest slot in use + 1: `_node` is a rowid table
                      without AUTOINCREMENT);
   `node.rs:297-301`  `Node::delete`, `node.rs:947-972` `NodeDeletionEntry::delete_all`: the row goes, its index
@@ -21,7 +23,8 @@ Settled by experiment on the real engine (harness `dv-events`, files `corpus/C17
 SET of `(slot, word)` pairs — inserting into a slot that still has entries adds to them (no constraint error),
 a 'delete' removes every entry of the named words for the slot whether or not they were indexed — plus one
 document record per slot (`_node_fts_docsize`: written by an insertion, removed by a 'delete'), which is what a
-join of `_node` with `_node_fts` on the rowid sees.
+join of `_node` with `_node_fts` on the rowid sees. A search (`MATCH … ORDER BY rank`) that meets an entry whose slot
+has no document record fails with SQLITE_CORRUPT_VTAB ("database disk image is malformed"): `poisoned`.
 Texts are lists of words; a search word matches a text that contains it.
 Import-free (core Lean only).
 -/
@@ -42,14 +45,20 @@ structure Defects where
       has are neither indexed (flag switched on) nor removed from the index (flag switched off).
       Only visible when `toggleIgnored` is off. -/
   toggleNoReindex : Bool
+  /-- `Node::write` issues the 'delete' of the previous text without looking whether the row is in the index — and
+      not at all when `index` is off: text that was never indexed is "deleted" (the counters of the index go
+      negative and SQLite ends up refusing writes), text indexed earlier stays when the row is rewritten unindexed -/
+  deleteUnguarded : Bool
 deriving Repr, DecidableEq
 
 def Defects.none : Defects :=
-  { deleteLeavesIndex := false, ingestUnindexed := false, toggleIgnored := false, toggleNoReindex := false }
+  { deleteLeavesIndex := false, ingestUnindexed := false, toggleIgnored := false, toggleNoReindex := false,
+    deleteUnguarded := false }
 
 /-- the code before any of the repairs proposed in `findings/C17-*.patch` -/
 def Defects.beforeFix : Defects :=
-  { deleteLeavesIndex := true, ingestUnindexed := true, toggleIgnored := true, toggleNoReindex := true }
+  { deleteLeavesIndex := true, ingestUnindexed := true, toggleIgnored := true, toggleNoReindex := true,
+    deleteUnguarded := true }
 
 /-- /repo as it is: what the correspondence run validates. One switch per line; the `.verif.patch` that goes with a
     repair of /repo turns its own line to `false`. -/
@@ -69,6 +78,11 @@ def Defects.asImplemented : Defects :=
     --
     --
     toggleIgnored := true,
+    -- `Node::write` deletes the previous text without looking whether the row is in the index
+    -- (repair: findings/C17-delete-previous-text-when-indexed.patch)
+    --
+    --
+    deleteUnguarded := true,
     -- no re-indexing when a flag changes: stays, with or without the repairs
     toggleNoReindex := true }
 
@@ -135,20 +149,23 @@ def findRow (n : Nat) : List Row → Option Row
 
 def eraseRow (n : Nat) (l : List Row) : List Row := l.filter fun r => r.n ≠ n
 
+/-- is the 'delete' of the previous text issued? As implemented (`unguarded`): whenever `index` is on.
+    Repaired: whenever the slot has a document record. -/
+def deletesPrev (unguarded index : Bool) (slot : Slot) (docs : List Slot) : Bool :=
+  if unguarded then index else docs.contains slot
+
 /-- `Node::write` for a row that has a slot (`_local_id = Some`) -/
-def writeUpdate (index : Bool) (old : Row) (new : Row) (prevText : Option (List Word)) (s : Site) : Site :=
-  let idx1 := if index then
-      let i0 := match prevText with
-        | some p => idxDel old.slot p s.idx
-        | none => s.idx
-      idxAdd old.slot new.text i0
-    else s.idx
-  let docs1 := if index then
-      (match prevText with
-        | some _ => docDel old.slot s.docs
-        | none => s.docs) ++ [old.slot]
-    else s.docs
-  { s with rows := eraseRow old.n s.rows ++ [{ new with slot := old.slot }], idx := idx1, docs := docs1 }
+def writeUpdate (unguarded index : Bool) (old : Row) (new : Row) (prevText : Option (List Word)) (s : Site) : Site :=
+  let del := deletesPrev unguarded index old.slot s.docs
+  let i0 := match prevText with
+    | some p => if del then idxDel old.slot p s.idx else s.idx
+    | none => s.idx
+  let d0 := match prevText with
+    | some _ => if del then docDel old.slot s.docs else s.docs
+    | none => s.docs
+  { s with rows := eraseRow old.n s.rows ++ [{ new with slot := old.slot }],
+           idx := if index then idxAdd old.slot new.text i0 else i0,
+           docs := if index then d0 ++ [old.slot] else d0 }
 
 /-- `Node::write` for a new row -/
 def writeInsert (index : Bool) (new : Row) (s : Site) : Site :=
@@ -161,6 +178,11 @@ def writeInsert (index : Bool) (new : Row) (s : Site) : Site :=
     current text of the row -/
 def dropEntries (docs : List Slot) (r : Row) (idx : List (Slot × Word)) : List (Slot × Word) :=
   if docs.contains r.slot then idxDel r.slot r.text idx else idx
+
+/-- a search for `t` meets an entry whose slot has no document record: SQLite answers "database disk image is
+    malformed" instead of a result (the rank of the entry cannot be computed), whatever the entity searched -/
+def poisoned (s : Site) (t : Word) : Bool :=
+  s.idx.any fun p => p.2 = t && !s.docs.contains p.1
 
 /-- rows of entity `e` joined on slot with the index entries for `t` (`search()`), as row numbers -/
 def search (s : Site) (e : Ent) (t : Word) : List Nat :=
@@ -251,14 +273,14 @@ def localOp (d : Defects) (tick : Nat) (usedRows : List Nat) (s : Site) : Op →
     | none => none
     | some old =>
       let prev := if old.text.isEmpty then none else some old.text
-      some { writeUpdate (s.indexOn old.ent) old { old with text := text, ver := tick } prev s with
+      some { writeUpdate d.deleteUnguarded (s.indexOn old.ent) old { old with text := text, ver := tick } prev s with
                logged := addLogged old.ent s.logged }
   | .clr _ n =>
     match findRow n s.rows with
     | none => none
     | some old =>
       let prev := if old.text.isEmpty then none else some old.text
-      some { writeUpdate (s.indexOn old.ent) old { old with text := [], ver := tick } prev s with
+      some { writeUpdate d.deleteUnguarded (s.indexOn old.ent) old { old with text := [], ver := tick } prev s with
                logged := addLogged old.ent s.logged }
   | .del _ n =>
     match findRow n s.rows with
@@ -278,7 +300,7 @@ def localOp (d : Defects) (tick : Nat) (usedRows : List Nat) (s : Site) : Op →
       else
         -- the parent is re-dated and rewritten: its own text is removed and added again
         let prev := if old.text.isEmpty then none else some old.text
-        some { writeUpdate (s.indexOn old.ent) old { old with ver := tick } prev s with
+        some { writeUpdate d.deleteUnguarded (s.indexOn old.ent) old { old with ver := tick } prev s with
                  refs := s.refs ++ [(n, m)], logged := addLogged old.ent s.logged }
     | _, _ => none
   | _ => none
@@ -309,7 +331,7 @@ def pullTombs (d : Defects) (src : Site) (e : Ent) (dst : Site) : Site :=
 def ingestRow (d : Defects) (dst : Site) (r : Row) : Site :=
   let index := !d.ingestUnindexed && dst.indexOn r.ent
   match findRow r.n dst.rows with
-  | some old => writeUpdate index old r (some old.text) dst
+  | some old => writeUpdate d.deleteUnguarded index old r (some old.text) dst
   | none => writeInsert index r dst
 
 /-- rows of entity `e`: those unknown locally or newer than the local version, in creation order -/
@@ -337,9 +359,10 @@ inductive Out where
   | ok
   | skip
   | hits (rows : List Nat)
-  | all (res : List (Ent × Word × List Nat))
+  | all (res : List (Ent × Word × Option (List Nat)))          -- `none`: that search failed
   | nhits (res : List (Nat × List Nat))
-  | nall (res : List (Word × List (Nat × List Nat)))
+  | nall (res : List (Word × Option (List (Nat × List Nat))))
+  | failed                                                       -- the search failed (SQL error)
 deriving Repr, DecidableEq
 
 def insertWord (w : Word) : List Word → List Word
@@ -348,8 +371,9 @@ def insertWord (w : Word) : List Word → List Word
 
 def noteWords (ws : List Word) (known : List Word) : List Word := ws.foldl (fun acc w => insertWord w acc) known
 
-def qallOf (s : Site) (words : List Word) : List (Ent × Word × List Nat) :=
-  ([0, 1].flatMap fun e => words.map fun t => (e, t, sortNat (search s e t))).filter fun x => !x.2.2.isEmpty
+def qallOf (s : Site) (words : List Word) : List (Ent × Word × Option (List Nat)) :=
+  ([0, 1].flatMap fun e => words.map fun t =>
+      (e, t, if poisoned s t then none else some (sortNat (search s e t)))).filter fun x => x.2.2 != some []
 
 /-- the nested operations: only on single-site histories (references are not modelled across sites) -/
 def stepNested (st : State) (op : Op) : State × Out :=
@@ -366,11 +390,12 @@ def stepNested (st : State) (op : Op) : State × Out :=
     | .qn si t =>
       match st.sites[si]? with
       | none => (st, .skip)
-      | some s => (st, .nhits (nsearch s t))
+      | some s => (st, if poisoned s t then .failed else .nhits (nsearch s t))
     | .qnall si =>
       match st.sites[si]? with
       | none => (st, .skip)
-      | some s => (st, .nall ((st.words.map fun t => (t, nsearch s t)).filter fun x => !x.2.isEmpty))
+      | some s => (st, .nall ((st.words.map fun t =>
+          (t, if poisoned s t then none else some (nsearch s t))).filter fun x => x.2 != some []))
     | _ => (st, .skip)
 
 def step (st : State) (op : Op) : State × Out :=
@@ -378,7 +403,10 @@ def step (st : State) (op : Op) : State × Out :=
   | .q si e t =>
     match st.sites[si]? with
     | none => (st, .skip)
-    | some s => if e ≥ 2 then (st, .skip) else (st, .hits (sortNat (search s e t)))
+    | some s =>
+      if e ≥ 2 then (st, .skip)
+      else if poisoned s t then (st, .failed)
+      else (st, .hits (sortNat (search s e t)))
   | .qall si =>
     match st.sites[si]? with
     | none => (st, .skip)
